@@ -114,14 +114,15 @@ def time_limit(seconds: int):
     """Per-case time limit nested inside the job alarm: raises JobTimeout after `seconds`; restores the job's remaining time."""
     import time as _t
     t0 = _t.time()
-    remaining = signal.alarm(seconds)
+    # sub-second bookkeeping: signal.alarm() only knows whole seconds, and rounding the job's remaining time once per case made a job of a
+    # few thousand fast cases run out of its budget although it had used a fraction of it
+    remaining = signal.setitimer(signal.ITIMER_REAL, seconds)[0]
     try:
         yield
     finally:
-        signal.alarm(0)
+        signal.setitimer(signal.ITIMER_REAL, 0)
         if remaining:
-            left = int(remaining - (_t.time() - t0))
-            signal.alarm(max(1, left))
+            signal.setitimer(signal.ITIMER_REAL, max(0.05, remaining - (_t.time() - t0)))
 
 
 @contextlib.contextmanager
